@@ -379,6 +379,12 @@ func Run(r *hx.Run, replay []hx.Case) {
 			fixed = append(fixed, []string{"W", "R", "P", "U", "P", "U", "W"}, []string{"P", "R", "P", "U", "W"}, []string{"W", "P", "W", "F", "T", "S", "P", "W", "R", "U"},
 				[]string{"R", "P", "U", "U", "P", "U", "U"})
 		}
+		if s.name == "sources" {
+			// a destination that fails in the middle of each large source (the copy from the source stops half-way)
+			for _, k := range []int{3000, 4500, 6000, 9000, 11000, 13000, 16000, 18000, 20000, 22500} {
+				fixed = append(fixed, []string{fmt.Sprintf("K%d", k), "W", "W"}, []string{"W", fmt.Sprintf("K%d", k), "R", "W"})
+			}
+		}
 		for _, h := range fixed {
 			runCase(r, hx.Case{ID: r.NewID(), Kind: "history", Args: []string{fmt.Sprint(si), strings.Join(h, ","), spec}}, sh)
 		}
@@ -389,6 +395,9 @@ func Run(r *hx.Run, replay []hx.Case) {
 				h[j] = alphabet[r.Rng.Intn(len(alphabet))]
 				if h[j][0] == 'K' && r.Rng.Intn(2) == 0 {
 					h[j] = fmt.Sprintf("K%d", r.Rng.Intn(1500))
+					if s.name == "sources" || r.Rng.Intn(4) == 0 {
+						h[j] = fmt.Sprintf("K%d", r.Rng.Intn(24000))
+					}
 				}
 			}
 			// each history is repeated to expose map-order variation
